@@ -266,21 +266,41 @@ def run(prog, chk):
             m = re.match(r"^List<(Callback::Emitter::Slot|Callback::Listener::Signal)>::remove$", n.get("callee", ""))
             if m and q.call_args(f, c):
                 sites.append((c, m.group(1), q.no_casts(f.r(q.call_args(f, c)[0]))))
+        # reference locals that stand for the record an iterator points at (`Slot& slotData = *i;`)
+        refs_of = {}
+        for n_ in f.nodes:
+            if n_["k"] == "DeclStmt":
+                for d_ in n_["decls"]:
+                    if (d_.get("t") or "").rstrip().endswith("&") and d_.get("init") is not None:
+                        m_ = re.match(r"^\*(\w+)$", q.no_casts(f.r(d_["init"])))
+                        ids_ = [f.nodes[x]["ref"].get("id") for x in [f.strip(d_["init"])] + list(f.desc(d_["init"])) if f.nodes[x]["k"] == "DeclRefExpr" and f.nodes[x]["ref"].get("dk") in ("local", "parm")]
+                        if m_ and ids_:
+                            refs_of[d_["n"]] = (m_.group(1), ids_[0])
         for st_ in q.stores(f):
-            m = re.match(r"^(\w+)\.operator->\(\)->state$", q.no_casts(f.r(st_.lhs)))
-            if m and st_.rhs is not None and "disconnected" in f.r(st_.rhs):
-                sites.append((st_.node, "Callback::Emitter::Slot", m.group(1)))
+            lt_ = q.no_casts(f.r(st_.lhs))
+            m = re.match(r"^(\w+)\.operator->\(\)->state$", lt_)
+            m2 = re.match(r"^(\w+)\.state$", lt_)
+            if st_.rhs is not None and "disconnected" in f.r(st_.rhs):
+                if m:
+                    sites.append((st_.node, "Callback::Emitter::Slot", m.group(1)))
+                elif m2 and m2.group(1) in refs_of:
+                    sites.append((st_.node, "Callback::Emitter::Slot", refs_of[m2.group(1)][0]))
         for node, rn, it in sites:
             got = {}
+            # the iterator variable meant at this site (names are reused by nested loops: take the declaration the site refers to)
+            it_ids = set(f.nodes[x]["ref"].get("id") for x in f.desc(node) if f.nodes[x]["k"] == "DeclRefExpr" and f.nodes[x]["ref"]["n"] in [it] + list(refs_of))
+            it_ids |= set(i_[1] for r_, i_ in refs_of.items() if any(f.nodes[x]["k"] == "DeclRefExpr" and f.nodes[x]["ref"]["n"] == r_ for x in f.desc(node)))
+            names = [it] + [r_ for r_, i_ in refs_of.items() if i_[0] == it and i_[1] in it_ids]
             for a in fin.dominating_atoms(f, f.node_pos(node)):
-                if a[0] == "case" or not a[1]:
+                if a[0] == "case":
                     continue
-                t = q.no_casts(fin.key(f, a[0]))
-                m = re.match(r"^\(%s\.operator->\(\)->(\w+) == (.+)\)$" % re.escape(it), t) or re.match(r"^\((.+) == %s\.operator->\(\)->(\w+)\)$" % re.escape(it), t)
-                if m:
-                    fld, other = (m.group(1), m.group(2)) if t.startswith("(%s." % it) else (m.group(2), m.group(1))
-                    if not re.search(r"\b%s\b" % re.escape(it), other):
-                        got[fld] = other
+                cn = fin._canon(f, a[0], a[1])      # `x != y` known false counts like `x == y` known true
+                if cn[0] == "val" or cn[1] != "==":
+                    continue
+                for me, other in ((cn[0], cn[2]), (cn[2], cn[0])):
+                    m = re.match(r"^(\w+)\.operator->\(\)->(\w+)$", me) or re.match(r"^(\w+)\.(\w+)$", me)
+                    if m and m.group(1) in names and not any(re.search(r"\b%s\b" % re.escape(x), other) for x in names):
+                        got[m.group(2)] = other
             missing = [x for x in ident[rn] if x not in got]
             if missing:
                 chk.bad("C12.f", f, "record-matched-on-partial-key:" + rn.split("::")[-1] + ":" + ",".join(missing), f.where(node),
